@@ -75,15 +75,18 @@ def split_lines(data):
     return res
 
 
-def line_ts(text):
+TS_RE_WIDE = re.compile(r'^(\d+)-(\d+)-(\d+) (\d+):(\d+):(\d+)')
+
+
+def line_ts(text, wide=False):
     """ seconds since 0001-01-01 of the timestamp at the start of a decoded
     line, None if there is none or it is not a real date """
-    m = TS_RE.match(text)
+    m = (TS_RE_WIDE if wide else TS_RE).match(text)
     if not m:
         return None
     try:
         d = datetime(*[int(x) for x in m.groups()])
-    except ValueError:
+    except (ValueError, OverflowError):
         return None
     return secs(d)
 
@@ -114,7 +117,7 @@ def decode(line, policy):
         return False, None
 
 
-def first_in_window(data, since):
+def first_in_window(data, since, wide=False):
     """ reference for the position a file-level constraint leaves the file
     at (C04's spec): first byte of the first line with date >= since; len
     if dates exist but none qualifies; 0 if no line is dated """
@@ -122,7 +125,7 @@ def first_in_window(data, since):
     any_date = False
     for ln in split_lines(data):
         txt = ln[:64].decode('utf-8', errors='backslashreplace')
-        ts = line_ts(txt)
+        ts = line_ts(txt, wide)
         if ts is not None:
             any_date = True
             if ts >= since:
